@@ -78,7 +78,10 @@ def enumerate_labels(n_roots=35, deg_mode="full", bass_mode="full"):
 def universe(r, size):
     """A fixed label universe for pairwise lattices (C11): N, X, every
     shorthand, added/omitted degrees, in/out-of-chord basses, enharmonics."""
-    base = ["N", "X"]
+    base = ["N", "X",
+            # pitch sets that lack their root, or hold two pitch classes only
+            "C:(*1)/b7", "A:maj(*1,*3,*5)/7", "F#:1(*1)/6", "C:maj(*1)/b7", "C:5/5",
+            "G:1/5", "D:(1,4)/4", "C:1(*1)/3", "E:min(*1)", "C:maj(*1)/5"]
     rts = ["C", "C#", "Db", "D", "E", "Fb", "F", "G", "Ab", "A", "B", "B#", "Cb"]
     for sh in SHORTHANDS:
         base.append(label("C", sh))
